@@ -102,7 +102,7 @@ def _alloc(fill):
 
 MODELS["numpy.zeros"] = _alloc(0)
 MODELS["numpy.ones"] = _alloc(1)
-MODELS["numpy.empty"] = _alloc(0)
+MODELS["numpy.empty"] = lambda fr, args, kwargs: N.empty(args[0], _kind_arg(kwargs.get("dtype", args[1] if len(args) > 1 else None)))
 
 
 @model("numpy.full")
@@ -112,9 +112,14 @@ def _np_full(fr, args, kwargs):
     return N.full(shape, val, dt or sym.kind_of(val))
 
 
-@model("numpy.zeros_like", "numpy.empty_like")
+@model("numpy.zeros_like")
 def _np_zl(fr, args, kwargs):
     return N.zeros_like(args[0], _kind_arg(kwargs.get("dtype")))
+
+
+@model("numpy.empty_like")
+def _np_el(fr, args, kwargs):
+    return N.empty_like(args[0], _kind_arg(kwargs.get("dtype")))
 
 
 @model("numpy.array", "numpy.asarray")
